@@ -114,18 +114,18 @@ class Check(core.PropertyCheck):
             ctx.notes.setdefault("edge_cover_paths", []).append(len(behs))
             if ctx.quick and len(behs) > cap:
                 behs = ctx.rng.sample(behs, cap)
-            behs += g.random_walks(ctx.rng, 150 if ctx.quick else 4000, 20)
+            behs += g.random_walks(ctx.rng, 150 if ctx.quick else 2500, 20)
             for b in behs:
                 yield self._scenario(b)
         if not ctx.quick:
             for group in ("raw", "paired"):
                 c = self._consts(group, "thorough") | {"MaxN": 5 if group == "raw" else 6, "NFlows": 1 if group == "raw" else 3,
                                                        "MaxUser": 6}
-                behs, _r = ctx.simulate(self.MODEL, c, num=5000, depth=30, tag="sim_" + group)
+                behs, _r = ctx.simulate(self.MODEL, c, num=4000, depth=30, tag="sim_" + group)
                 for b in behs:
                     yield self._scenario(b, "simulate")
         rng = random.Random(ctx.seed + 11)
-        for _ in range(700 if ctx.quick else 15000):
+        for _ in range(700 if ctx.quick else 10000):
             proto = rng.choice(RAW + PAIRED)
             yield core.Scenario({"proto": proto, "plan": None, "ops": None, "seed": rng.randrange(1 << 30),
                                  "n": rng.randint(3, 7) if proto in RAW else 2 * rng.randint(2, 4)}, source="random")
